@@ -517,7 +517,7 @@ def expand(template_path, repo, twin_suffix=None):
             if 'vis' in opts:
                 sig = re.sub(r'^(pub(\([^)]*\))?\s+)?', opts['vis'] + ' ' if opts['vis'] else '', sig, count=1)
             variants = [(newname, False)]
-            if twin_suffix:
+            if twin_suffix and not opts.get('notwin'):
                 variants.append((newname + twin_suffix, True))
             for vname, twin in variants:
                 vsig = re.sub(r'\bfn\s+' + re.escape(name) + r'\b', 'fn ' + vname, sig, count=1)
